@@ -273,4 +273,71 @@ func commentShapes(ctx *Ctx) {
 		}
 	}
 	ctx.Cov.Component("comment shapes (empty, runs of #, block comments beginning / ending with #) at every kind of place between directives", cases, bad, "")
+	sameLineComments(ctx)
+}
+
+// sameLineComments: a comment on the SAME line as the end of something — after the closing bracket of an ENUM body,
+// after a schema body, after a regex body, after a keyword line, after a parenthesis — with and without a gap, with
+// every line end and at the end of the file without a final newline.  Deleting the comment must change nothing.
+func sameLineComments(ctx *Ctx) {
+	type place struct{ id, before, after string }
+	places := []place{
+		{"enum-body", "JSIGHT 0.3\nGET /a\n  200 any\nENUM @e\n  [\"cat\", \"dog\"]", "\nTYPE @b\n{}\n"},
+		{"enum-body-lines", "JSIGHT 0.3\nGET /a\n  200 any\nENUM @e\n[\n  1,\n  2\n]", "\nTYPE @b\n{}\n"},
+		{"enum-body-at-end-of-file", "JSIGHT 0.3\nGET /a\n  200 any\nENUM @e\n[1, 2]", ""},
+		{"schema-body", "JSIGHT 0.3\nTYPE @a\n{\"b\": 0}", "\nTYPE @b\n{}\nGET /a\n  200 @a\n"},
+		{"response-schema", "JSIGHT 0.3\nGET /a\n  200\n  {\"b\": 0}", "\n  404 any\n"},
+		{"regex-body", "JSIGHT 0.3\nTYPE @a regex\n/ab/", "\nGET /a\n  200 any\n"},
+		{"keyword-line", "JSIGHT 0.3\nINFO", "\n  Title \"t\"\nGET /a\n  200 any\n"},
+		{"parameter-line", "JSIGHT 0.3\nGET /a", "\n  200 any\n"},
+		{"open-paren", "JSIGHT 0.3\nGET /a\n(", "\n  200 any\n)\n"},
+		{"close-paren", "JSIGHT 0.3\nGET /a\n(\n  200 any\n)", "\nTYPE @b\n{}\n"},
+		{"version-line", "JSIGHT 0.3", "\nGET /a\n  200 any\n"},
+	}
+	comments := []struct{ id, text string }{
+		{"hash-text", "# the kinds we know"}, {"empty-hash", "#"}, {"block-one-line", "### x ###"}, {"block-lines", "### x\ny\n###"}, {"double-hash-text", "## x"},
+	}
+	cases, bad := 0, 0
+	for _, pl := range places {
+		plain := RunProject(SingleFile([]byte(pl.before+pl.after)), false)
+		if !plain.Accepted() {
+			ctx.Break("same-line comments: the plain document of place " + pl.id + " is not accepted: " + plain.Verdict())
+			continue
+		}
+		for _, cm := range comments {
+			for _, gap := range []string{" ", "\t", "   "} {
+				for _, nl := range []string{"\n", "\r\n", "\r"} {
+					doc := pl.before + gap + cm.text + pl.after
+					if nl != "\n" {
+						doc = strings.ReplaceAll(doc, "\n", nl)
+					}
+					res := RunProject(SingleFile([]byte(doc)), false)
+					cases++
+					ctx.Cov.Count([]byte(doc), true)
+					ctx.Cov.Hit("same-line comment after " + pl.id)
+					if res.Panic != "" {
+						continue
+					}
+					if res.Accepted() != plain.Accepted() || !bytes.Equal(res.JSON, plain.JSON) {
+						bad++
+						in := projectInput(SingleFile([]byte(doc)))
+						in["op"] = "rewrite"
+						in["plain"] = hx([]byte(pl.before + pl.after))
+						what := fmt.Sprintf("the comment %q on the line of the %s changes the result: without it: %s; with it: %s", cm.text, strings.ReplaceAll(pl.id, "-", " "), plain.Verdict(), res.Verdict())
+						if res.Accepted() {
+							what = fmt.Sprintf("the comment %q on the line of the %s changes the catalog: %s", cm.text, strings.ReplaceAll(pl.id, "-", " "), firstDiff(plain.JSON, res.JSON))
+						}
+						sig := "comment:same-line:" + pl.id + ":" + cm.id
+						if pl.id == "schema-body" || pl.id == "response-schema" {
+							// the schema library's Len() reads on after the body: its comment grammar, not the scanner's (F41)
+							sig = "comment:same-line-after-library-body:" + cm.id
+						}
+						ctx.Violate(Violation{Kind: "wrong-output", Site: "comments", What: what, Input: in, Observed: res.Verdict(), Expected: plain.Verdict(),
+							Signature: sig})
+					}
+				}
+			}
+		}
+	}
+	ctx.Cov.Component("a comment on the same line as the end of an ENUM / schema / regex body, a keyword line, a parenthesis", cases, bad, "")
 }
